@@ -21,7 +21,7 @@ func scenarioEnum(c *vrun.Ctx) {
 	b64 := func(n int) string { return base64.RawStdEncoding.EncodeToString(make([]byte, n)) }
 	ids := []string{"argon2id", "argon2i", "", "ARGON2ID", "argon2id "}
 	vers := []string{"v=19", "v=", "v=x", "19", "v=99999999999999999999", "", "v=-1"}
-	params := []string{"m=8,t=1,p=1", "m=8,t=1,p=1,l=32", "m=8,t=1", "m=0,t=1,p=1", "m=8,t=1,p=256", "m=x,t=1,p=1", "m=8,,t=1,p=1", "m=8,t=1,p=1,l=31", "m=4294967296,t=1,p=1", "", "m", "m=8,t=1,p=1,zz=1", "=,=", "m=8,t=1,p=1,l=99999999999"}
+	params := []string{"m=8,t=1,p=1", "m=8,t=1,p=1,l=32", "m=8,t=1", "m=0,t=1,p=1", "m=8,t=1,p=256", "m=x,t=1,p=1", "m=8,,t=1,p=1", "m=8,t=1,p=1,l=31", "m=4294967296,t=1,p=1", "m=4294967295,t=1,p=1", "m=1073741824,t=1,p=1", "m=8,t=4294967295,p=1", "m=8,t=2147483648,p=1", "", "m", "m=8,t=1,p=1,zz=1", "=,=", "m=8,t=1,p=1,l=99999999999"}
 	var salts, hashes []string
 	for n := 0; n <= 40; n++ {
 		salts = append(salts, b64(n))
@@ -57,6 +57,19 @@ func scenarioEnum(c *vrun.Ctx) {
 			return
 		}
 		c.Outcome("accepted")
+		// An accepted hash is verified at the next login with its own cost parameters. A memory cost of a
+		// tebibyte or more (m is in KiB) aborts the process ("fatal error: out of memory", no panic to
+		// recover from), 2^31 passes and more never end: such a string has to be rejected, like any other
+		// that cannot be used. (The bounds here are far above anything usable; where exactly an
+		// implementation draws the line below them is its business.)
+		if uint64(ph.memory) >= 1<<30 {
+			c.SetCase(s)
+			c.Violation("C16/phc/accepted-cost-that-cannot-be-run/memory", fmt.Sprintf("ParsePHC(%q) is accepted: verifying a password against it allocates %d KiB and aborts the process", s, ph.memory), nil)
+		}
+		if uint64(ph.time) >= 1<<31 {
+			c.SetCase(s)
+			c.Violation("C16/phc/accepted-cost-that-cannot-be-run/time", fmt.Sprintf("ParsePHC(%q) is accepted: verifying a password against it runs %d passes and never returns", s, ph.time), nil)
+		}
 		// an accepted hash must be usable: String() round trips and Verify does not panic
 		func() {
 			defer func() {
